@@ -95,7 +95,8 @@ func (exec *Executor) execArrayIndex(
 
 				res, resErr = exec.executeNextItem(ctx, node, next, v, found)
 				if res.failed() || (res == statusOK && found == nil) {
-					break
+					// Stop processing all subscripts, not just this one.
+					return res, resErr
 				}
 			}
 		}
